@@ -51,6 +51,9 @@ fn main() {
             let spec = props::lookup(&args[2]).expect("property");
             let tier = Tier::parse(&args[3]).expect("tier");
             let index: u64 = args[5].parse().expect("index");
+            if std::env::var_os("VERIF_TRACING").is_some() {
+                let _ = tracing_subscriber::fmt().with_max_level(tracing::Level::DEBUG).with_writer(std::io::stderr).try_init();
+            }
             let id = if args[4] == "enumerated" { core::RunId::Enumerated { index } } else { core::RunId::Seeded { index } };
             let o = core::execute_id(spec, driver::base_seed(), tier, &id, true);
             for l in o.trace.unwrap_or_default() {
